@@ -200,6 +200,9 @@ def r_strain(ctx, model):
              ("ModulusRepresentation", (I(1), I(1), I(1), I(4))), ("ModulusRepresentation", (I(0), I(1), I(1), I(1))),
              ("ModulusRepresentation", ("17",)), ("ModulusRepresentation", (I(70),)), ("ModulusRepresentation", ("1114",)),
              ("ModulusRepresentation", (I(1), I(2), I(3))), ("ModulusRepresentation", ()),
+             # a zero in the second place (falsy, but not absent)
+             ("StrainRepresentation", (I(1), I(0))), ("StrainRepresentation", (I(4), I(0))), ("StrainRepresentation", ("10",)), ("StrainRepresentation", (I(30),)),
+             ("ModulusRepresentation", (I(1), I(0))), ("ModulusRepresentation", ("10",)), ("ModulusRepresentation", (I(1), I(1), I(1), I(0))), ("ModulusRepresentation", ("1110",)),
              # not an index at all (no branch of the dispatch applies): refused, not answered with None
              ("StrainRepresentation", (None,)), ("StrainRepresentation", (sp.Rational(3, 2),))]
     for cls, args in cases:
